@@ -22,6 +22,12 @@
 5. Sequences: family PS (two adjacencies in one file, one process per case) and 100
    generated two-statement programs, so that printer state carried from one separation
    decision to the next is observed.
+6. Streams (fifth round, tla/pp/PrinterSeq.tla): print_tokens as a loop with its own state (line, prev) over
+   three-token streams in which (at_bol, has_space) of EVERY token, the first included, takes all four values;
+   TLC proves PrintedFaithful on all 21,952 streams (control: a line counter that counts output lines must be
+   rejected) and writes for each stream the source texts that make the preprocessor produce these flags
+   (seven lead-ins that expand to nothing, tokens written directly or through ID()); each text is run in a
+   compiler process of its own and must print the stream's tokens.
 """
 import glob, json, os, re, subprocess
 import vt, ppcase, pptok, c09
@@ -183,6 +189,102 @@ def sequence_programs(ctx):
     return out
 
 
+# ---- fifth round: print_tokens as a loop with state over free flags (tla/pp/PrinterSeq.tla) ----------------
+STREAM_STRIDE = 101          # quick: every 101st text of the domain (~2,900 of ~294,000); thorough: all
+_MARK = re.compile(r";(\d+);\n")
+
+
+def stream_generate(ctx, workers):
+    """complete model check of PrinterSeq (PrintedFaithful on every stream, every flag combination of every
+    token) + the sensitivity control; returns the emitted source texts"""
+    stride = STREAM_STRIDE if ctx.quick else 1
+    out = os.path.join(ctx.scratch, "seq.ndjson")
+    cfg = ctx.cfg("pp", "PrinterSeq_gen.cfg", Stride=stride, Seed=ctx.seed % stride)
+    res = c09.tlc_full(ctx, "PrinterSeq", cfg, env=dict(OUT=out), workers=workers, timeout=1500, heap="4g")
+    if not res.ok:
+        p = ctx.replay_dir("tlc-PrinterSeq")
+        open(p + "/counterexample.txt", "w").write(res.trace_text())
+        json.dump(dict(kind="tlc", area="pp", module="PrinterSeq", cfg=open(cfg).read()), open(p + "/case.json", "w"))
+        ctx.report("tlc:PrinterSeq:%s" % res.violated, "print_tokens (the loop with its state) is not faithful on some token stream", p)
+    ctl = ctx.cfg("pp", "PrinterSeq_gen.cfg", LineRule='"lines"', Emit=False, Stride=1, Seed=0)
+    r2 = c09.tlc_full(ctx, "PrinterSeq", ctl, workers=2, count=False, heap="4g")
+    if r2.ok or r2.violated != "PrintedFaithful":
+        raise Infra("sensitivity control failed: PrinterSeq accepts a line counter that counts output lines (%s)" % (r2.violated,))
+    rows = vt.read_ndjson(out)
+    if not rows:
+        raise Infra("PrinterSeq wrote no source texts")
+    return sorted(rows, key=lambda r: r["id"])
+
+
+def stream_run(runner, rows, tag, batch=40):
+    """{id: (rc, tokens or None, err)}: one compiler process per text.  The driver is given `batch` files at a
+    time (it runs one cc1 per file, each with a fresh print_tokens); a line `;<id>;` closes every file so that
+    the concatenated output can be cut without knowing how it is laid out."""
+    d = os.path.join(runner.dir, "seq-" + tag)
+    os.makedirs(d, exist_ok=True)
+    open(os.path.join(d, "c19_empty.h"), "w").write("")
+
+    def path(r):
+        f = os.path.join(d, "s%d.c" % r["id"])
+        if not os.path.exists(f):
+            open(f, "w").write(r["text"] + ";%d;\n" % r["id"])
+        return f
+
+    def single(r):
+        for tmo in (4 * runner.timeout, 24 * runner.timeout):       # a timeout must repeat (loaded machine)
+            rc, out, err = ppcase.run_limited(runner.cmd + [path(r)], tmo)
+            if rc != "timeout":
+                break
+        m = _MARK.search(out) if rc == 0 else None
+        return r["id"], (rc, pptok.lex(out[:m.start()]) if m and int(m.group(1)) == r["id"] else None, err)
+
+    def chunk(rs):
+        rc, out, err = ppcase.run_limited(runner.cmd + [path(r) for r in rs], runner.timeout + len(rs))
+        if rc == 0:
+            parts, pos = {}, 0
+            for m in _MARK.finditer(out):
+                parts[int(m.group(1))] = out[pos:m.start()]
+                pos = m.end()
+            if list(parts) == [r["id"] for r in rs] and pos == len(out):
+                return [(r["id"], (0, pptok.lex(parts[r["id"]]), "")) for r in rs]
+        return [single(r) for r in rs]
+    res = {}
+    for lst in vt.pmap(chunk, [rows[i:i + batch] for i in range(0, len(rows), batch)], workers=8):
+        res.update(lst)
+    return res
+
+
+def stream_judge(ctx, chib, gcc, rows, res):
+    bad = [r for r in rows if res[r["id"]][0] != 0 or res[r["id"]][1] != r["toks"]]
+    gres = stream_run(gcc, bad, "tiebreak") if bad else {}
+    for r in rows:
+        ctx.note_case("SEQ:%d" % r["id"], nontrivial=r["flags"] != ["B-", "B-", "B-"])
+    for r in bad:
+        rc, toks, err = res[r["id"]]
+        if gres[r["id"]][0] != 0 or gres[r["id"]][1] != r["toks"]:
+            ctx.oracle_disagreements += 1
+            continue
+        first = "first-at-bol" if r["flags"][0][0] == "B" else "first-not-at-bol"
+        if rc == "timeout":
+            kind, what = "timeout", "chibicc -E did not terminate"
+        elif rc != 0:
+            kind, what = "rejected", "well-defined input rejected (%s)" % ppcase.errmsg(err)
+        elif toks is None:
+            kind, what = "garbled", "the output lost its end marker"
+        else:
+            kind = "fused" if "".join(toks) == "".join(r["toks"]) else "tokens"      # same characters, other token boundaries
+            what = "expected `%s` got `%s`" % (" ".join(r["toks"]), " ".join(toks))
+        ctx.report("stream:%s:%s" % (kind, first),
+                   "SEQ:%d flags %s lead-in %d mode %s: %s   input: %s" % (r["id"], " ".join(r["flags"]), r["lead"], r["mode"], what,
+                                                                         r["text"].replace("\n", " \\n ")),
+                   case=dict(kind="stream", row=r, got=toks, rc=rc, err=(err or "")[-300:]))
+    ctx.cov["traces_validated_against_impl"] += len(rows)
+    ctx.cov.setdefault("families", {})["SEQ"] = dict(cases=len(rows), first_not_at_bol=sum(1 for r in rows if r["flags"][0][0] != "B"))
+    if rows:
+        r = rows[len(rows) // 2]
+        ctx.sample(dict(family="SEQ", id=r["id"], flags=r["flags"], input=r["text"], expected=" ".join(r["toks"])))
+
+
 def run(ctx):
     q = ctx.quick
     tree = ctx.build()
@@ -200,6 +302,9 @@ def run(ctx):
     def gen(j):
         return c09.run_gen(ctx, j[0], j[1], j[2], workers=min(cap or 99, 3 if q else 6))
 
+    def streams(_):
+        return stream_generate(ctx, min(cap or 99, 3))
+
     def models(_):
         printer_model(ctx, 3)
         validate_tokenizer(ctx, 4)
@@ -211,7 +316,8 @@ def run(ctx):
         if ctl.ok:
             raise Infra("sensitivity control failed: Macro.tla family P accepts the pinned print_tokens")
         return None
-    results = vt.pmap(lambda t: t[0](t[1]), [(gen, j) for j in jobs] + [(models, None)], workers=2 if cap else 4)
+    results = vt.pmap(lambda t: t[0](t[1]), [(gen, j) for j in jobs] + [(streams, None), (models, None)], workers=2 if cap else 4)
+    seq = results[len(jobs)]
     ctx.phase("tlc done")
     total = 0
     for (fam, cfg, out), cases in zip(jobs, results[:len(jobs)]):
@@ -225,17 +331,20 @@ def run(ctx):
         c = oks[len(oks) // 2]
         ctx.sample(dict(family=fam, id=c["id"], input=ppcase.render_case(c)[0], expected=" ".join(c["outs"][0])))
         ctx.phase("replayed " + fam)
+    stream_judge(ctx, chib, gcc, seq, stream_run(chib, seq, "chibicc"))
+    total += len(seq)
+    ctx.phase("replayed SEQ")
     files = sorted(glob.glob(tree + "/test/*.c")) + sorted(glob.glob(tree + "/*.c"))
     if q:
         files = vt.subsample(files, ctx.seed, 3)
     corpus(ctx, tree, files + sequence_programs(ctx))
     ctx.phase("corpus done")
     ctx.assumptions += [
-        "Level I flags: `sp` stands for has_space or at_bol (both print white space); the first token of the output is never separated",
+        "Level I flags: in Printer.tla/Macro.tla `sp` stands for has_space or at_bol (both print white space); PrinterSeq.tla keeps the two apart and lets them range freely for every token of a three-token stream, the first included",
         "the alphabet has no digraphs, no `$`/UCN identifiers and no `_` directly after a pp-number (tokenize.c differs from 6.4.8 there)",
         "corpus files that the tree under test cannot compile are skipped, not judged"]
     return ctx.finish(
-        rule="case = one (pair or triple of spellings, adjacency context) input of families P/PT of MacroFamilies.tla replayed through chibicc -E (tokens, and -E twice), or one corpus file (E∘E and -S equality); non-trivial = the machine took at least 2 steps / the file has tokens; distinct = distinct (family, index) or file",
+        rule="case = one (pair or triple of spellings, adjacency context) input of families P/PT of MacroFamilies.tla replayed through chibicc -E (tokens, and -E twice), or one source text of PrinterSeq.tla (a three-token stream with given at_bol/has_space flags, realised by a vanishing lead-in and white space, run in a process of its own: tokens), or one corpus file (E∘E and -S equality); non-trivial = the machine took at least 2 steps / the file has tokens; distinct = distinct (family, index) or file",
         exhaustive=not q, extra=dict(replayed=total))
 
 
@@ -252,6 +361,9 @@ def replay(ctx, path):
         c09.judge(ctx, chib, gcc, c["case"], r, "C19")
     elif c.get("kind") == "idem":
         idempotence(ctx, chib, [c["case"]])
+    elif c.get("kind") == "stream":
+        ctx.note_case("replay")
+        stream_judge(ctx, chib, gcc, [c["row"]], stream_run(chib, [c["row"]], "replay"))
     elif c.get("kind") == "corpus":
         fs = [f for f in glob.glob(tree + "/test/*.c") + glob.glob(tree + "/*.c") if os.path.basename(f) == c["file"]]
         corpus(ctx, tree, fs)
